@@ -106,6 +106,25 @@ def addElectric (fu : FeatureUnits) (s : VState α) (e : α) (u : EnergyUnit) : 
 
 end State
 
+/-- a row of a number file after `str::parse::<f64>`: a number, or a value the reader treats
+specially (NaN; for grades also the infinities) -/
+inductive Row (α : Type) where
+  | val (x : α)
+  | nan
+
+def Row.isNan {α : Type} : Row α → Bool
+  | .nan => true
+  | .val _ => false
+
+def Row.val? {α : Type} : Row α → Option α
+  | .nan => none
+  | .val x => some x
+
+/-- `Speed::from_str` refuses the row: NaN or negative -/
+def Row.badSpeed {α : Type} [LT α] [DecidableLT α] [Lit α] : Row α → Bool
+  | .nan => true
+  | .val x => decide (x < (zero : α))
+
 /-! ## Time model: `SpeedTraversalModel` over a speed table -/
 
 /-- `SpeedTraversalEngine` -/
@@ -159,14 +178,23 @@ def SpeedEngine.estimate [LT α] [DecidableLT α] (e : SpeedEngine α) (maxSpeed
       let s1 := addTime fu s t e.timeUnit
       .ok (addDistance fu s1 distance e.distanceUnit)
 
-/-- reading the speed table file: `Speed::from_str` rejects a negative value, which fails the build -/
-def loadSpeedTable [LT α] [DecidableLT α] (rows : List α) : Except Err (List α) :=
-  if rows.any (fun x => decide (x < (zero : α))) then .error .build else .ok rows
+/-- reading the speed table file: `Speed::from_str` rejects a negative value and NaN (an infinite
+speed is accepted), which fails the build -/
+def loadSpeedTable [LT α] [DecidableLT α] (rows : List (Row α)) : Except Err (List α) :=
+  if rows.any Row.badSpeed then .error .build else .ok (rows.filterMap Row.val?)
+
+/-- reading the grade table file: `Grade::from_str` rejects a row that is not a finite number (here
+`.nan` stands for NaN and the infinities); no file, no table -/
+def loadGradeTable (rows : Option (List (Row α))) : Except Err (Option (List α)) :=
+  match rows with
+  | none => .ok none
+  | some rs =>
+    if rs.any Row.isNan then .error .build else .ok (some (rs.filterMap Row.val?))
 
 /-- `SpeedLookupBuilder::build` / `SpeedTraversalEngine::new`: the table is read, the maximum speed
 found, and absent `distance_unit` / `time_unit` default to the base units.  Returns the engine and
-its `max_speed`. -/
-def SpeedEngine.ofConfig [LT α] [DecidableLT α] (rows : List α) (su : SpeedUnit)
+its `max_speed`.  (`get_max_speed` never sees NaN here: the reader has refused it.) -/
+def SpeedEngine.ofConfig [LT α] [DecidableLT α] (rows : List (Row α)) (su : SpeedUnit)
     (du : Option DistanceUnit) (tu : Option TimeUnit) : Except Err (SpeedEngine α × α) :=
   match loadSpeedTable rows with
   | .error e => .error e
@@ -486,6 +514,13 @@ file that does not exist or does not parse, an invalid cache policy — does not
 (`TraversalModelError::BuildError`); which entry is wrong does not matter -/
 def configReadable (malformed : Bool) : Except Err Unit :=
   if malformed then .error .build else .ok ()
+
+/-- a query's `state_features` may replace `battery_state` only by a feature of the same kind — type,
+unit and format (`StateFeature::eq`, checked by `StateModel::extend`); a feature of another format
+(signed_integer, unsigned_integer, boolean) is a change of kind and the query is refused.  (The full
+rule is C11's `StateFeature.eqv` / `extend`.) -/
+def stateFeaturesAccepted (formatChanged : Bool) : Except Err Unit :=
+  if formatChanged then .error .build else .ok ()
 
 /-- the `model_name` entry of the query -/
 inductive NameQuery where
